@@ -23,10 +23,8 @@
   The statements are generic in the step function (any state type, any numeric
   carrier), so they cover the executed `Float` instances of the three models and
   any detector whose update has this shape; they are instantiated for DDM, EDDM
-  and STEPD below.  Models of ADWINAccuracy and LinearFourRates are not part of
-  this slice: for them the theorems apply to an *abstract* step function of the
-  agreement bit / the cell, and the claim that the real classes have this shape is
-  established by `harness/checks/c16.py` on the real code only.  That the Python
+  and STEPD below, and for the ADWINAccuracy and LinearFourRates models in
+  `Props/C16More.lean` (`adwinAcc_agreement`, `lfr_cell_only`).  That the Python
   classes feed exactly `int(y_pred != y_true)` to the modelled step is likewise
   checked there (twin runs under re-encodings), not proved.
 -/
